@@ -73,7 +73,12 @@ func writeReplay(ctx *Ctx, vc *FuncVC, o *Obligation, prop string) (string, bool
 		if test != "" {
 			rf.Test = test
 			rf.Package = pkgDir
-			res, confirmed := runReplay(test, pkgDir, o.Kind)
+			kind := o.Kind
+			if kind == "post" && o.Src == "result" {
+				kind = "post-result-true"
+			}
+			rf.Kind = kind
+			res, confirmed := runReplay(test, pkgDir, kind)
 			rf.Replay, rf.Confirmed = res, confirmed
 		} else {
 			rf.Replay = "no replay template: " + why
@@ -279,7 +284,16 @@ func genReplayTest(ctx *Ctx, vc *FuncVC, o *Obligation) (test, pkgDir, why strin
 	b.WriteString(decl.String())
 	b.WriteString(snap.String())
 	b.WriteString("\tfunc() {\n\t\tdefer func() {\n\t\t\tif r := recover(); r != nil {\n\t\t\t\tfmt.Printf(\"VERIF-REPLAY: panic %v\\n\", r)\n\t\t\t}\n\t\t}()\n")
-	fmt.Fprintf(&b, "\t\t%s\n\t\tfmt.Println(\"VERIF-REPLAY: returned\")\n\t}()\n", call)
+	switch sig.Results().Len() {
+	case 0:
+		fmt.Fprintf(&b, "\t\t%s\n\t\tfmt.Println(\"VERIF-REPLAY: returned\")\n\t}()\n", call)
+	case 1:
+		fmt.Fprintf(&b, "\t\tr0 := %s\n\t\tfmt.Printf(\"VERIF-REPLAY: returned %%v\\n\", r0)\n\t}()\n", call)
+	case 2:
+		fmt.Fprintf(&b, "\t\tr0, r1 := %s\n\t\tfmt.Printf(\"VERIF-REPLAY: returned %%v | %%v\\n\", r0, r1)\n\t}()\n", call)
+	default:
+		fmt.Fprintf(&b, "\t\t%s\n\t\tfmt.Println(\"VERIF-REPLAY: returned\")\n\t}()\n", call)
+	}
 	b.WriteString(cmp.String())
 	b.WriteString("}\n")
 	rel := strings.TrimPrefix(pkg.Path(), modPath+"/")
@@ -301,7 +315,7 @@ func runReplay(test, pkgDir, kind string) (string, bool) {
 	os.WriteFile(ovf, ob, 0o644)
 	c, cancel := context.WithTimeout(context.Background(), 300*time.Second)
 	defer cancel()
-	cmd := exec.CommandContext(c, "go", "test", "-overlay", ovf, "-vet=off", "-count=1", "-v", "-timeout", "60s", "-run", "^TestVerifReplay$", "./"+pkgDir)
+	cmd := exec.CommandContext(c, "go", "test", "-overlay", ovf, "-tags", "verif", "-vet=off", "-count=1", "-v", "-timeout", "60s", "-run", "^TestVerifReplay$", "./"+pkgDir)
 	cmd.Dir = repoDir
 	cmd.Env = append(os.Environ(), "GOFLAGS=-mod=mod", "GOPROXY=off")
 	var out bytes.Buffer
@@ -327,6 +341,8 @@ func runReplay(test, pkgDir, kind string) (string, bool) {
 		confirmed = strings.Contains(res, "VERIF-REPLAY: panic")
 	case "frame", "alias":
 		confirmed = strings.Contains(res, "buffer-modified")
+	case "post-result-true":
+		confirmed = strings.Contains(res, "VERIF-REPLAY: returned false")
 	}
 	if confirmed {
 		res = "CONFIRMED on the real code: " + res
